@@ -280,7 +280,7 @@ pub fn run(a: &Args, rep: &mut Report) {
     for _ in 0..reps {
         table_layout(rep, &mut r);
     }
-    let n = a.budget(300_000, 60_000_000);
+    let n = a.budget(2_000_000, 60_000_000);
     for _ in 0..n {
         entry_program(rep, &mut r);
     }
